@@ -35,6 +35,8 @@ func main() {
 		baseline()
 	case "c27":
 		runC27()
+	case "c27hist":
+		runC27Hist()
 	case "geom":
 		runGeom()
 	case "c28":
